@@ -14,3 +14,46 @@ fn c14_encode_table() {
     assert!(BASE64_ENCODE[i as usize] == alpha(i));
     kani::cover!(i == 63);
 }
+
+// RFC 4648 reference for up to 4 input bytes (bounded twin of the Verus unit base64enc; counterexample provider)
+fn ref_b64(d: &[u8; 4], n: usize, out: &mut [u8; 8]) -> usize {
+    let a = |i: u8| alpha(i);
+    let mut k = 0;
+    let mut i = 0;
+    while i + 3 <= n {
+        out[k] = a(d[i] >> 2); out[k + 1] = a(((d[i] & 3) << 4) | (d[i + 1] >> 4));
+        out[k + 2] = a(((d[i + 1] & 15) << 2) | (d[i + 2] >> 6)); out[k + 3] = a(d[i + 2] & 63);
+        k += 4; i += 3;
+    }
+    let r = n - i;
+    if r == 1 { out[k] = a(d[i] >> 2); out[k + 1] = a((d[i] & 3) << 4); out[k + 2] = b'='; out[k + 3] = b'='; k += 4; }
+    if r == 2 { out[k] = a(d[i] >> 2); out[k + 1] = a(((d[i] & 3) << 4) | (d[i + 1] >> 4)); out[k + 2] = a((d[i + 1] & 15) << 2); out[k + 3] = b'='; k += 4; }
+    k
+}
+
+//# kind=bounded tier=thorough props=C14 bound="up to 4 input bytes split into two writes at any point (incl. empty writes)" fns="<Base64Encoder<W> as Write>::write,Base64Encoder::finish" | writing d[..k] then d[k..n] and finishing yields exactly the RFC 4648 text of d[..n], for every split point and all byte values (bounded twin of the Verus proof)
+#[kani::proof]
+#[kani::unwind(10)]
+fn c14_encoder_two_writes_bounded() {
+    let d: [u8; 4] = kani::any();
+    let n: usize = kani::any();
+    let k: usize = kani::any();
+    kani::assume(n <= 4 && k <= n);
+    let mut enc = Base64Encoder::new(Vec::with_capacity(16));
+    let r1 = enc.write(&d[..k]);
+    let r2 = enc.write(&d[k..n]);
+    assert!(r1.is_ok() && r2.is_ok());
+    let res = enc.finish();
+    let mut want = [0u8; 8];
+    let wl = ref_b64(&d, n, &mut want);
+    match &res {
+        Ok(v) => {
+            assert!(v.len() == wl);
+            let mut i = 0;
+            while i < wl { assert!(v[i] == want[i]); i += 1; }
+        }
+        Err(_) => assert!(false),
+    }
+    kani::cover!(n == 4 && k == 1);
+    std::mem::forget(res); std::mem::forget(r1); std::mem::forget(r2);
+}
